@@ -84,6 +84,26 @@ def build_links(ctx):
     links.append(("cxx-dynamic", "g++", [ca, cb, "-pie"]))
     if not ctx.quick:
         links.append(("cxx-static", "g++", [ca, cb, "-static-pie"]))
+    # symbols that become dynamic only because shared libraries on the command line reference them
+    # (their order in .dynsym/.gnu.hash is decided late and from several threads)
+    nglob = ctx.pick(1200, 4000)
+    d2 = ctx.scratch.dir("dynrefs")
+    defs = ["".join(f".globl dr{i}\n.type dr{i},@function\ndr{i}: ret\n" for i in range(k, nglob, 2)) for k in (0, 1)]
+    dobjs = [tools.assemble(ctx, ".text\n" + t, name=f"dynref-def{k}") for k, t in enumerate(defs)]
+    sos = []
+    for k in range(4):
+        refs = "".join(f"    .quad dr{i}\n" for i in range(k, nglob, 4))
+        ro = tools.assemble(ctx, f".data\n.globl tab{k}\ntab{k}:\n" + refs, name=f"dynref-so{k}")
+        so = os.path.join(d2, f"libref{k}.so")
+        rl = tools.link("ld", ["-shared", ro, "-o", so, f"-soname=libref{k}.so"])
+        if rl.ok:
+            sos.append(so)
+    start = tools.assemble(ctx, ".globl _start\n.text\n_start: mov $60,%eax\n xor %edi,%edi\n syscall\n", name="dynref-start")
+    if sos:
+        links.append(("exe-syms-exported-for-dsos", "direct", [start, *dobjs, *sos, "-pie", "--dynamic-linker=/lib64/ld-linux-x86-64.so.2",
+                                                               "--hash-style=gnu", "--no-gc-sections"]))
+        links.append(("exe-syms-exported-for-dsos-sysv", "direct", [start, *dobjs, *sos, "-pie", "--dynamic-linker=/lib64/ld-linux-x86-64.so.2",
+                                                                    "--hash-style=sysv", "--no-gc-sections"]))
     # thin + regular archives of the many objects
     d = ctx.scratch.dir("ar")
     half = len(objs) // 2
